@@ -444,3 +444,129 @@ func (f *Flow) loopHead(loop ast.Stmt) *cfg.Block {
 	}
 	return nil
 }
+
+// CarriedFlag describes a boolean search flag that is set inside an inner loop
+// and tested in the enclosing loop: it must start afresh for every element of
+// the enclosing loop (declared inside its body, or reset there before the
+// inner loop). Found by searchFlags.
+type CarriedFlag struct {
+	Var   types.Object
+	Outer ast.Stmt // enclosing loop
+	Inner ast.Stmt // loop that sets the flag
+	Fresh bool     // declared or reset inside Outer's body before Inner
+}
+
+func loopBody(s ast.Node) *ast.BlockStmt {
+	switch x := s.(type) {
+	case *ast.ForStmt:
+		return x.Body
+	case *ast.RangeStmt:
+		return x.Body
+	}
+	return nil
+}
+
+// searchFlags enumerates the search flags of a function (see CarriedFlag).
+func searchFlags(info *types.Info, body *ast.BlockStmt) []CarriedFlag {
+	pm := parentMap(body)
+	loopsOf := func(n ast.Node) []ast.Stmt { // innermost first
+		var out []ast.Stmt
+		for cur := pm[n]; cur != nil; cur = pm[cur] {
+			if _, isLit := cur.(*ast.FuncLit); isLit {
+				break
+			}
+			if loopBody(cur) != nil {
+				out = append(out, cur.(ast.Stmt))
+			}
+		}
+		return out
+	}
+	isTrue := func(e ast.Expr) bool {
+		tv, ok := info.Types[e]
+		return ok && tv.Value != nil && tv.Value.String() == "true"
+	}
+	isFalse := func(e ast.Expr) bool {
+		tv, ok := info.Types[e]
+		return ok && tv.Value != nil && tv.Value.String() == "false"
+	}
+	type setSite struct {
+		v     types.Object
+		loops []ast.Stmt
+	}
+	var sets []setSite
+	ast.Inspect(body, func(n ast.Node) bool {
+		as, ok := n.(*ast.AssignStmt)
+		if !ok || as.Tok != token.ASSIGN || len(as.Lhs) != 1 || len(as.Rhs) != 1 || !isTrue(as.Rhs[0]) {
+			return true
+		}
+		v := objOf(info, as.Lhs[0])
+		if v == nil {
+			return true
+		}
+		if vv, ok := v.(*types.Var); !ok || vv.IsField() {
+			return true
+		}
+		if ls := loopsOf(as); len(ls) >= 2 {
+			sets = append(sets, setSite{v, ls})
+		}
+		return true
+	})
+	var out []CarriedFlag
+	seen := map[[2]token.Pos]bool{}
+	for _, s := range sets {
+		inner := s.loops[0]
+		// the flag is tested in an enclosing loop, outside the inner one
+		for _, outer := range s.loops[1:] {
+			tested := false
+			ast.Inspect(loopBody(outer), func(n ast.Node) bool {
+				if n == inner {
+					return false
+				}
+				ifs, ok := n.(*ast.IfStmt)
+				if !ok {
+					return true
+				}
+				ast.Inspect(ifs.Cond, func(m ast.Node) bool {
+					if id, ok := m.(*ast.Ident); ok && info.Uses[id] == s.v {
+						tested = true
+					}
+					return true
+				})
+				return true
+			})
+			if !tested {
+				continue
+			}
+			k := [2]token.Pos{s.v.Pos(), outer.Pos()}
+			if seen[k] {
+				break
+			}
+			seen[k] = true
+			ob := loopBody(outer)
+			fresh := ob.Pos() <= s.v.Pos() && s.v.Pos() < ob.End()
+			if !fresh {
+				// reset by a statement of the outer body that stands before the inner loop on the way to it
+				for cur := ast.Node(inner); cur != nil && cur != ast.Node(ob); cur = pm[cur] {
+					var list []ast.Stmt
+					switch b := pm[cur].(type) {
+					case *ast.BlockStmt:
+						list = b.List
+					case *ast.CaseClause:
+						list = b.Body
+					}
+					for _, st := range list {
+						if st == cur {
+							break
+						}
+						if as, ok := st.(*ast.AssignStmt); ok && len(as.Lhs) == 1 && len(as.Rhs) == 1 && objOf(info, as.Lhs[0]) == s.v && isFalse(as.Rhs[0]) {
+							fresh = true
+						}
+					}
+				}
+			}
+			out = append(out, CarriedFlag{s.v, outer, inner, fresh})
+			break
+		}
+	}
+	return out
+}
